@@ -72,11 +72,12 @@ def configs(tier):
                     stop_after_fail=True))
            for cap in ((1,) if tier == 'quick' else (0, 1)) for pos in (0, 1)
            for m in ('get', ['bbatch', 2])]
-  late += [(q, dict(prods=[2], cap=1, cons=['get', 'get'], fail=[0, 1],
+  # (4 threads: free switches only)
+  many += [(q, dict(prods=[2], cap=1, cons=['get', 'get'], fail=[0, 1],
                     stop='plain', stop_after_fail=True)),
            (q, dict(prods=[2], cap=1, cons=['get', ['batch', 0]], fail=[0, 1],
-                    stop='plain', stop_after_fail=True, late_cons=True)),
-           (q, dict(prods=[2], cap=0, cons=['get'], fail=[0, 1],
+                    stop='plain', stop_after_fail=True, late_cons=True))]
+  late += [(q, dict(prods=[2], cap=0, cons=['get'], fail=[0, 1],
                     late_cons=True)),
            (q, dict(prods=[2], cap=0, cons=['iter'], fail=[0, 0], stop='exc',
                     stop_after_fail=True, late_cons=True)),
